@@ -192,6 +192,11 @@ where
                     }
                     first_maximal = false;
                     if arg_is_missing {
+                        let in_current = compute_in_current_bool(&computer);
+                        missing_in_one_maximal
+                            .iter_mut()
+                            .zip(in_current.iter())
+                            .for_each(|(m, c)| *m = *m && !*c);
                         break (
                             false,
                             vec![],
